@@ -50,9 +50,8 @@ impl ManifestPackCreator {
 
         for ((pack_data, locator), free_data_id) in self.packs.into_iter().zip(free_data_ids) {
             let check_info_pos = file.stream_position()? - origin_offset;
-            file.ser_write(&pack_data.check_info)?;
-            let check_info_size = file.stream_position()? - origin_offset - check_info_pos;
-            let check_info_size: usize = check_info_size.try_into().unwrap();
+            // The size of a block doesn't include its CRC (as for every other SizedOffset).
+            let check_info_size = file.ser_write(&pack_data.check_info)?;
             pack_infos.push(PackInfo::new(
                 pack_data,
                 0,
